@@ -70,6 +70,16 @@ Theorem each_processor_once_stepwise : forall c st t l r k rr st',
 Proof. exact emit_slot_exports. Qed.
 Print Assumptions each_processor_once_stepwise.
 
+(* simple, BATCH and multiple processors: a burst of n emissions in a row (the batch processors' exporters held back until
+   the last one returned, so that the queues hold the whole burst) - every configured processor exactly n more entries,
+   each the record as supplied, in order: nothing handed over twice, nothing lost *)
+Theorem burst_each_processor_exactly_n : forall c st t l n flush args st' p,
+  logger_enabled c l = true -> lstep c st (LBurst t l n flush args) = Ok st' ->
+  s_exp st' = s_exp st ++ repeat_app (exported st l (length (s_procs st)) (build (active_ident c st t) args)) n /\
+  count_for p (s_exp st') = count_for p (s_exp st) + (if p <? length (s_procs st) then n else 0).
+Proof. exact ProofsProps.burst_each_processor_exactly_n. Qed.
+Print Assumptions burst_each_processor_exactly_n.
+
 (* "explicitly supplied identity wins" - per component, the last one supplied *)
 Theorem explicit_identity_wins : forall act h,
   (forall t, lastof x_tid h = Some t -> tid_of (build act h) = t) /\
